@@ -28,12 +28,14 @@ const tWG = "TestWaitGroup"
 type Worker struct {
 	Kind string `json:"kind"` // add-done | inc-done | launch | dotimes | op-add | startgroup
 	N    int    `json:"n,omitempty"`
+	Exit string `json:"exit,omitempty"` // launched operations: "" returns | goexit: leaves its goroutine through runtime.Goexit (as t.FailNow / t.SkipNow do)
 }
 
 type Waiter struct {
-	StartAfter  int    `json:"start_after"`  // started after that many workers were released
-	CancelAfter int    `json:"cancel_after"` // context cancelled after that many were released (-1: never)
-	Via         string `json:"via"`          // wait | operation | worker
+	StartAfter  int    `json:"start_after"`                  // started after that many workers were released
+	CancelAfter int    `json:"cancel_after"`                 // context cancelled after that many were released (-1: never)
+	Via         string `json:"via"`                          // wait | operation | worker
+	Background  bool   `json:"background_context,omitempty"` // waits with context.Background(): a context that can never end
 }
 
 type Round struct {
@@ -128,7 +130,15 @@ func runCase(c *Case) (string, string) {
 				go func() { <-g; b.dec(); wg.Done(); finished.Add(1) }()
 			case "launch", "op-add":
 				g := newGate()
-				op := fun.Operation(func(context.Context) { <-g; b.dec(); finished.Add(1) })
+				exit := w.Exit
+				op := fun.Operation(func(context.Context) {
+					<-g
+					b.dec()
+					finished.Add(1)
+					if exit == "goexit" {
+						runtime.Goexit()
+					}
+				})
 				if w.Kind == "launch" {
 					wg.Launch(ctx, op)
 				} else {
@@ -145,7 +155,16 @@ func runCase(c *Case) (string, string) {
 				for i := range mine {
 					mine[i] = newGate()
 				}
-				op := fun.Operation(func(context.Context) { g := mine[idx.Add(1)-1]; <-g; b.dec(); finished.Add(1) })
+				exit := w.Exit
+				op := fun.Operation(func(context.Context) {
+					g := mine[idx.Add(1)-1]
+					<-g
+					b.dec()
+					finished.Add(1)
+					if exit == "goexit" {
+						runtime.Goexit()
+					}
+				})
 				if w.Kind == "dotimes" {
 					wg.DoTimes(ctx, w.N, op)
 				} else {
@@ -180,6 +199,9 @@ func runCase(c *Case) (string, string) {
 		startWaiter := func(i int) {
 			w := &wstate{}
 			w.ctx, w.cancel = context.WithCancel(context.Background())
+			if r.Waiters[i].Background {
+				w.ctx, w.cancel = context.Background(), func() {}
+			}
 			ws[i] = w
 			via := r.Waiters[i].Via
 			wwg.Add(1)
@@ -292,6 +314,9 @@ func genCase(t *rapid.T) *Case {
 			if w.Kind == "dotimes" || w.Kind == "startgroup" {
 				w.N = rapid.SampledFrom([]int{-2, -1, 0, 0, 1, 1, 2, 2, 3, 3}).Draw(t, "n")
 			}
+			if w.Kind != "add-done" && w.Kind != "inc-done" && rapid.IntRange(0, 3).Draw(t, "goexit") == 0 {
+				w.Exit = "goexit"
+			}
 			r.Workers = append(r.Workers, w)
 		}
 		total := units(r)
@@ -302,6 +327,8 @@ func genCase(t *rapid.T) *Case {
 			w := Waiter{StartAfter: rapid.IntRange(0, total).Draw(t, "startAfter"), CancelAfter: -1, Via: rapid.SampledFrom([]string{"wait", "wait", "operation", "worker"}).Draw(t, "via")}
 			if rapid.IntRange(0, 3).Draw(t, "cancels") == 0 {
 				w.CancelAfter = rapid.IntRange(w.StartAfter, total).Draw(t, "cancelAfter")
+			} else if rapid.IntRange(0, 2).Draw(t, "background") == 0 {
+				w.Background = true
 			}
 			r.Waiters = append(r.Waiters, w)
 		}
@@ -341,16 +368,20 @@ func TestWaitGroup(t *testing.T) {
 				vkit.Fail(t, tWG, "C14:"+k, *c, "%s (repetition %d)", why, i)
 			}
 		}
-		maxW, cancels := 0, false
+		maxW, cancels, bg, goexit := 0, false, false, false
 		for _, r := range c.Rounds {
 			if len(r.Waiters) > maxW {
 				maxW = len(r.Waiters)
 			}
 			for _, w := range r.Waiters {
 				cancels = cancels || w.CancelAfter >= 0
+				bg = bg || w.Background
+			}
+			for _, w := range r.Workers {
+				goexit = goexit || w.Exit == "goexit"
 			}
 		}
-		cls := []string{fmt.Sprintf("rounds:%d", len(c.Rounds)), fmt.Sprintf("max-waiters:%d", maxW), fmt.Sprintf("cancel:%v", cancels)}
+		cls := []string{fmt.Sprintf("rounds:%d", len(c.Rounds)), fmt.Sprintf("max-waiters:%d", maxW), fmt.Sprintf("cancel:%v", cancels), fmt.Sprintf("background-context-waiter:%v", bg), fmt.Sprintf("goexit-operation:%v", goexit)}
 		vkit.CaseN(tWG, vkit.Hash(*c), reps, maxW >= 2 || len(c.Rounds) >= 2, cls, func() any { return *c })
 	})
 }
